@@ -266,6 +266,15 @@ impl C13 {
             operands.push((vec![G::Unify(v("$R"), v("$S"))], v("$S"), "unbound result variable aliased to the operand variable"));
             operands.push((vec![G::Unify(v("$R"), v("$S")), G::Unify(v("$S"), v("$U"))], v("$U"), "alias chain of three unbound variables"));
             for (g, _) in &fs { operands.push((vec![], g.clone(), "another function")); }
+            // body-local variables aliased before the function is met (older to newer and newer to older);
+            // the value must reach the *other* end of the alias chain
+            for flip in [false, true] {
+                for (p, q) in [("$X", "$Y"), ("$Y", "$X")] {
+                    let goal = if flip { G::Unify(v("$X"), f.clone()) } else { G::Unify(f.clone(), v("$X")) };
+                    cases.push(bcase(rule1(vec![v("$R")], vec![G::Unify(v(p), v(q)), goal.clone(), G::Unify(v("$R"), v("$Y"))]), 1, None, true, "body variables aliased first, value read through the other one"));
+                    cases.push(bcase(rule1(vec![v("$R")], vec![G::Unify(v(p), v(q)), G::Unify(v("$Z"), v("$Y")), goal, G::Unify(v("$R"), v("$Z"))]), 1, None, true, "alias chain of three body variables"));
+                }
+            }
             for (pre, other, label) in operands {
                 for flip in [false, true] {
                     let goal = if flip { G::Unify(other.clone(), f.clone()) } else { G::Unify(f.clone(), other.clone()) };
